@@ -190,7 +190,7 @@ class Harness:
                       "findall": Host(lambda p, s_, flags=0: re.findall(p, s_, flags)), "escape": Host(re.escape)})
         env: dict[str, Any] = {
             "re": re_sym, "ast": Sym("ast", {}, {"literal_eval": Host(lit)}), "issubclass": Host(issub), "Structure": struct_cls, "BaseArray": array_cls,
-            "Field": Host(field), "Expression": Host(expression_host(model)), "compiler": Sym("compiler", {}, {"compile": Host(lambda st: st)}),
+            "Field": Host(field), "Expression": Host(expression_host(model)), "compiler": Sym("compiler", {}, {"compile": Host(self._compile)}),
             "object": Sym("object", {}, {"__getattribute__": Host(self._object_getattribute)}), "__exc_parents__": self.parents,
             "int": int, "str": str, "len": len, "TYPE_CHECKING": False, "__name__": "dissect.cstruct.parser",
         }
@@ -200,6 +200,25 @@ class Harness:
             elif isinstance(st, ast.ClassDef):
                 env[st.name] = ClassObj(st, env)
         return env
+
+    @staticmethod
+    def _compile(st: Any) -> Any:
+        # the model records that a compiled reader was requested for this structure (at this moment: with the fields it has now)
+        if isinstance(st, Sym):
+            st.attrs["__compile_requests__"] = [*st.attrs.get("__compile_requests__", []), len(st.attrs.get("__fields__", []))]
+        return st
+
+    def compile_requests(self, text: str, **kw: Any) -> dict | None:
+        """name -> number of compile requests, for every structure / union the parser made from ``text`` (None when the text is refused)."""
+        model = ModelCS()
+        env = self.env(model)
+        try:
+            parser = Evaluator(env, steps=400000)
+            inst = parser.ev(ast.parse("TokenParser(cs, **kw)", mode="eval").body, {**env, "cs": model.sym, "kw": kw})
+            parser.call_user(inst.methods["parse"], [inst, text], {})
+        except Raised:
+            return None
+        return {t.attrs["__name__"]: len(t.attrs.get("__compile_requests__", [])) for t in model.types.values() if t.attrs.get("__kind__") == "struct"}
 
     @staticmethod
     def _object_getattribute(o: Any, name: str) -> Any:
@@ -502,6 +521,20 @@ def fold_parser(repo: Repo) -> dict | None:
             flags = [got.get("typedefs", {}).get("point", (0, 0, 0, None))[3]] + ([o_[3]] + [f_[1][3] for f_ in o_[4]] if o_ else [None])
             if any(x is not want_align for x in flags):
                 out["bad"].append((label, f"structures (point, outer, its tagged / anonymous / union members) are created with align = {flags}, expected {want_align} for all"))
+        # the compiled option and the #[nocompile] flag: a reader is requested for exactly the structures that are to be compiled - also when the
+        # structure holds nested definitions (each of which ends by resetting the flags) and when it is pre-registered for self reference
+        flag_text = ("struct before { uint8 p; };\n#[nocompile]\nstruct declined {\n    struct { uint8 c; } u;\n    struct tagged2 { uint8 d; } w;\n    uint8 z;\n};\n"
+                     "struct after {\n    struct { uint8 e; } v;\n    uint8 q;\n};\n")
+        for kw, label, want in (({}, "compiled (default), one structure under #[nocompile]", {"before": True, "declined": False, "after": True}),
+                                ({"compiled": False}, "compiled=False", {"before": False, "declined": False, "after": False})):
+            got = h.compile_requests(flag_text, **kw)
+            out["cases"] += 1
+            if got is None:
+                out["bad"].append(("options", f"{label}: the text is refused"))
+                continue
+            wrong = {n_: bool(got.get(n_)) for n_ in want if bool(got.get(n_)) != want[n_]}
+            if wrong:
+                out["bad"].append(("options", f"{label}: a compiled reader is requested for {{name: requested}} = {wrong}, expected {want}"))
         return out
     except (Refused, Exhausted) as e:
         out["refused"] = str(e)
